@@ -27,6 +27,7 @@
 package c13
 
 import (
+	"bytes"
 	"context"
 	"crypto/x509"
 	"crypto/x509/pkix"
@@ -128,6 +129,12 @@ func mintPool() {
 	// a non-CA certificate whose subject NAME equals its issuer's name (root1) but which is signed
 	// by root1's key: self-issued by name only, neither a CA nor self-signed
 	add("leaf", pki.Mint(leaf("root1"), r1))
+	// a CA-issued leaf whose signature algorithm is one the platform does not know (the OID of
+	// ecdsa-with-SHA256 with its last arc changed, inside and outside the signed part): nobody can
+	// establish that it is self-signed, and it is not a CA
+	if odd := unknownSigAlg(pki.Mint(leaf("leaf-unknown-sigalg"), i2)); odd != nil {
+		add("leaf", odd)
+	}
 	add("ssleaf", pki.Mint(leaf("ssleaf0"), nil))
 	sp = leaf("ssleaf1")
 	sp.EKU = nil
@@ -175,6 +182,21 @@ func mintPool() {
 			p.err = fmt.Errorf("decoy %s is not a self-signed CA", pc.ID)
 		}
 	}
+}
+
+// unknownSigAlg returns c with its signature algorithm identifier rewritten to an unknown OID of the
+// same length, or nil when c was not signed with ecdsa-with-SHA256 or no longer parses.
+func unknownSigAlg(c *pki.Cert) *pki.Cert {
+	oid := []byte{0x06, 0x08, 0x2A, 0x86, 0x48, 0xCE, 0x3D, 0x04, 0x03, 0x02}
+	bogus := []byte{0x06, 0x08, 0x2A, 0x86, 0x48, 0xCE, 0x3D, 0x04, 0x03, 0x7E}
+	if bytes.Count(c.Cert.Raw, oid) != 2 {
+		return nil
+	}
+	parsed, err := x509.ParseCertificate(bytes.ReplaceAll(c.Cert.Raw, oid, bogus))
+	if err != nil || parsed.SignatureAlgorithm != x509.UnknownSignatureAlgorithm {
+		return nil
+	}
+	return &pki.Cert{Cert: parsed, Key: c.Key}
 }
 
 func pemOf(cs []*pcert) []byte {
